@@ -203,6 +203,10 @@ Q_SHAPES = {
     "ibox": ("verts", [(1, 1), (7, 2), (7, -3), (1, -3)]),
     "ikite": ("verts", [(3, -1), (5, 2), (3, 4), (1, 2)]),
     "ilens": ("ctrl", [[(-2, 0), (0, -3), (2, 0)], [(2, 0), (0, 3), (-2, 0)]]),
+    # half discs bounded by consecutive arcs of a circle of the alphabet and the closing chord:
+    # they SHARE those arcs with the circle
+    "halfc8": ("arcs", "c8", 6, 4),
+    "halfc16": ("arcs", "c16", 3, 8),
     # mixed degrees in generic position (nothing on an axis, nothing symmetric about the origin)
     "mixg": (
         "ctrl",
@@ -268,6 +272,17 @@ def leaf_data(name):
         d = Q_SHAPES[key]
         if d[0] == "circle":
             return d + (cw,)
+        if d[0] == "arcs":
+            from . import lib
+
+            c = Q_SHAPES[d[1]]
+            circ = lib.Primitive.circle(radius=c[1], center=c[2], ndivangle=c[3]).jordans[0]
+            n = len(circ.segments)
+            segs = [[(float(q[0]), float(q[1])) for q in circ.segments[(d[2] + i) % n].ctrlpoints] for i in range(d[3])]
+            segs.append([segs[-1][-1], segs[0][0]])
+            if cw:
+                segs = [list(reversed(sg)) for sg in reversed(segs)]
+            return ("ctrl", segs)
         if d[0] == "verts":
             verts = list(d[1])
             if cw:
